@@ -139,7 +139,12 @@ def r1_r2_r5_search(repo, rep, name):
       # another name: an alias or a copy of the same object taken after the control series was set is the same state
       sx = rd.expand(snode, S_expr, aliases=True)[0]
       sx, _c = strip_deepcopy(sx)
-      if isinstance(sx, ast.Name) and sx.id == D:
+      d_s = rd.single_def(snode, S_expr.id) if isinstance(S_expr, ast.Name) else None
+      d_d = rd.single_def(dn, D)
+      if d_s is not None and d_d is not None and d_s.node is not d_d.node and d_s.how == 'assign' and isinstance(d_s.value, ast.Call) \
+          and norm(d_s.value.func).split('.')[-1] == 'TBRMMDiagnostics':
+        same_state = False          # the score is computed from another, separately constructed diagnostics object
+      elif isinstance(sx, ast.Name) and sx.id == D:
         same_state = None if xs is None else (xs in view.doms.get(snode, ()) or None)
       elif not isinstance(sx, ast.Name):
         same_state = None
